@@ -1,7 +1,7 @@
 #!/bin/bash
 # tools/try_wt.sh <patch> <Cxx> [args]: development helper - apply a change to the scratch worktree /tmp/wtclean (not /repo), run the check there
 patch=$1; prop=$2; shift 2
-WT=/tmp/wtclean
+WT=${WT:-/tmp/wtclean}
 [ -d $WT ] || git -C /repo worktree add -q --detach $WT HEAD
 git -C $WT checkout -q -- . ; git -C $WT apply "$patch" || { echo "patch does not apply"; exit 9; }
 cd /verif && PYVC_REPO=$WT ./check "$prop" --no-evidence "$@" 2>&1 | grep -v "conda\|KNOWN-FINDING" | tail -8 | cut -c1-300
